@@ -438,6 +438,8 @@ func runBlackbox(c *hx.Ctx, r *hx.Rng, nSets, nq int) error {
 							cls = ""
 							if q.hasBoolFirst() {
 								cls = "first-bool-ties"
+							} else if q.loneExtreme() {
+								cls = "extreme-time-ties"
 							}
 						}
 						h.violation(lastLine, cls, fmt.Sprintf("http bb%d %s answers %s under [%s] and %s under [%s]; data: %s", i, q.sql(), clip(raws[0]), bbConfigs[0].text(), clip(raws[k]), bbConfigs[k].text(), clip(d.text())))
